@@ -64,7 +64,7 @@ class A:
 
 
 SHAPES = ["lit", "litb", "litf", "lits", "ulit", "int", "str", "gen", "seq", "dinc", "td", "ann", "sub", "tv", "u2", "utv", "never", "any",
-          "annu", "annau", "gtv"]
+          "annu", "annau", "gtv", "tdab", "tdba"]
 
 
 def mk(shape: str, x):
@@ -108,6 +108,10 @@ def mk(shape: str, x):
                               [CustomCheckExtension(Gt(5))])
     if shape == "gtv":  # list[T] | list[int]: a type variable nested inside a member, no bare type-variable member
         return MultiValuedValue([GenericValue(list, [TypeVarValue(T)]), GenericValue(list, [TypedValue(int)]), KnownValue(None)])
+    if shape == "tdab":  # the same two-key TypedDict written in two key orders: equal values
+        return TypedDictValue({"a": TypedDictEntry(TypedValue(int)), "b": TypedDictEntry(KnownValue(x))})
+    if shape == "tdba":
+        return TypedDictValue({"b": TypedDictEntry(KnownValue(x)), "a": TypedDictEntry(TypedValue(int))})
     if shape == "never":
         return NO_RETURN_VALUE
     if shape == "any":
